@@ -194,7 +194,7 @@ pub struct DLong<'a> {
     pub d: &'a [u8],
 }
 #[derive(SplDiscriminate)]
-#[discriminator_hash_input("verif::where")]
+#[discriminator_hash_input("verif::where",)]
 pub struct DWhere<T>
 where
     T: Clone,
@@ -221,7 +221,7 @@ pub struct DInline<T: Clone, const N: usize, U = u8> {
 pub fn run_c18(ctx: &Ctx) -> Report {
     let mut rep = Report::new("C18");
     rep.corr_module = "Macros".into();
-    rep.expect_classes(&["disc:builder", "disc:compiled", "conv:u64", "conv:slice:ok", "conv:slice:err", "header:generic", "header:plain", "literal:raw", "literal:block-boundary"]);
+    rep.expect_classes(&["disc:builder", "disc:compiled", "conv:u64", "conv:slice:ok", "conv:slice:err", "header:generic", "header:plain", "literal:raw", "literal:block-boundary", "literal:trailing-comma"]);
     let mut rng = Rng::new(ctx.seed.wrapping_mul(197).wrapping_add(18));
     // ---- compiled derives
     let compiled: Vec<(&str, &str, ArrayDiscriminator, &[u8])> = vec![
@@ -261,6 +261,8 @@ pub fn run_c18(ctx: &Ctx) -> Report {
         let is_enum = rng.chance(1, 3);
         let extra = if rng.chance(1, 3) { "#[derive(Clone)]\n#[repr(C)]\n" } else { "" };
         let body = if is_enum { "{ A, B }".to_string() } else if rng.chance(1, 2) { "{ x: u8 }".to_string() } else { ";".to_string() };
+        // the attribute also takes a trailing comma
+        let lit = if rng.chance(1, 5) { rep.count("literal:trailing-comma"); format!("{},", lit) } else { lit };
         let src = if is_enum || body != ";" {
             format!("{}#[discriminator_hash_input({})]\npub {} Item{}{} {}", extra, lit, if is_enum { "enum" } else { "struct" }, gens, wh, body)
         } else {
